@@ -14,7 +14,8 @@ RULE = ('pairs (base, target) of map-rooted, null-free, $-free trees; target is 
         'partial matches of kept ones, container kind changes in every direction (also from/to empty containers), scalars retyped with the same '
         'spelling; identical pairs; base, target and diff written in any mix of json/yaml/toml. The real bkld writes the layer, which is stored '
         'as base.diff.<ext>; the real bkl must accept it (exit 0) and its decoded output must equal target; for identical pairs the layer must '
-        'be empty or only the {} selector. Non-trivial = base != target; distinct = distinct (base, target, formats).')
+        'be empty or only the {} selector. Variants: -o onto an existing longer file; the target stored as a two-layer file (t.ext + t.top.ext); the base '
+        'named with another supported extension than the file on disk (layer format = the requested one). Non-trivial = base != target; distinct = distinct (base, target, formats).')
 ASSUMPTIONS = ['own serializers validated against independent decoders; json output of bkl decoded with python json (int/float numerically)']
 
 FMTS = ['json', 'yaml', 'toml']
@@ -58,15 +59,33 @@ def shrink(case):
         yield dict(case, fmts=['json', 'json', 'json'])
 
 
-def roundtrip(ctx, res, d, basefile, target, tfmt, dfmt, stem, what, detail):
+def roundtrip(ctx, res, d, basefile, target, tfmt, dfmt, stem, what, detail, variant=None):
     """bkld basefile target -> <stem>.diff.<dfmt>; bkl on it must give target. Returns True if ok."""
     ctx.tgt_n = getattr(ctx, 'tgt_n', 0) + 1
     tf = 'tgt%d_%s.%s' % (ctx.tgt_n, stem, tfmt)     # one file per layer name: never reuse a stem with another extension
-    with open(os.path.join(d, tf), 'w') as f:
-        f.write(ser.write(tfmt, [target], style='quoted' if tfmt == 'yaml' else None))
+    keys = list(target.keys()) if isinstance(target, dict) else []
+    if variant == 'layered-target' and len(keys) >= 2:
+        # the target is itself a layered file (plain filename inheritance): what counts is what it evaluates to
+        upper_keys = keys[len(keys) // 2:]
+        lower = {k: v for k, v in target.items() if k not in upper_keys}
+        upper = {k: target[k] for k in upper_keys}
+        with open(os.path.join(d, tf), 'w') as f:
+            f.write(ser.write(tfmt, [lower], style='quoted' if tfmt == 'yaml' else None))
+        tf = 'tgt%d_%s.top.%s' % (ctx.tgt_n, stem, tfmt)
+        with open(os.path.join(d, tf), 'w') as f:
+            f.write(ser.write(tfmt, [upper], style='quoted' if tfmt == 'yaml' else None))
+        res.labels.add('target:layered-file')
+    else:
+        with open(os.path.join(d, tf), 'w') as f:
+            f.write(ser.write(tfmt, [target], style='quoted' if tfmt == 'yaml' else None))
     layer = '%s.diff.%s' % (stem, dfmt)
-    via_o = ctx.tgt_n % 5 == 0
-    if via_o:
+    via_o = ctx.tgt_n % 5 == 0 and variant != 'virtual-base-name'
+    if variant == 'virtual-base-name':
+        # the base is named with another supported extension than the file on disk has: the file is found by its stem and
+        # the layer is written in the requested format (no -f, no -o)
+        r = cli([ctx.bin('bkld'), '%s.%s' % (stem, dfmt), tf], cwd=d)
+        res.labels.add('via:virtual-base-name')
+    elif via_o:
         # -o <layer> (format from its extension); the file already exists and is longer than any layer
         with open(os.path.join(d, layer), 'w') as f:
             f.write('# stale\n' * 400)
@@ -109,7 +128,11 @@ def check_case(ctx, case):
     with open(os.path.join(d, 'base.' + bf), 'w') as f:
         f.write(ser.write(bf, [base], style='quoted' if bf == 'yaml' else None))
     res.labels.add('fmts:%s/%s/%s' % (bf, tf, df))
-    ok = roundtrip(ctx, res, d, 'base.' + bf, target, tf, df, 'base', 'base->target', {'base': base, 'target': target, 'fmts': case['fmts']})
+    variant = {3: 'layered-target', 5: 'virtual-base-name'}.get(case.get('i', 0) % 7)
+    if variant == 'virtual-base-name' and df == bf:
+        variant = None
+    ok = roundtrip(ctx, res, d, 'base.' + bf, target, tf, df, 'base', 'base->target' + (' ' + variant if variant else ''),
+                   {'base': base, 'target': target, 'fmts': case['fmts']}, variant)
     same = veq(base, target)
     res.nontrivial = not same
     if ok:
